@@ -26,7 +26,7 @@ THEOREMS = ['C04_coincidence', 'C04_rw_local_name', 'C04_rw_local_name_results',
             'C04_rw_dead_field_value', 'C04_rw_dead_param', 'C04_dead_code_irrelevance',
             'C04_dead_bind_irrelevance', 'C04_error_in_dead_code', 'C04_run_once', 'C04_done_is_stable',
             'C04_never_back_to_pending', 'C04_set_done_assert_never_fires', 'C04_inprogress_reentry_fails',
-            'C04_laziness_monotone', 'C04_laziness_monotone_arg',
+            'C04_laziness_monotone', 'C04_laziness_monotone_arg', 'C04_laziness_monotone_item',
             'C04_nonvacuous_rewrites', 'C04_nonvacuous_laziness', 'C04_nonvacuous_machine']
 ALLOWED_AXIOMS = set()
 TRANSLATORS = []
